@@ -274,6 +274,25 @@ def _single(case, ctx, g):
     ctx.close("expected_log_prob", elp, ref.expand(elp.shape), "direct", cls=cls)
     lm = lik.log_marginal(y, d, **kw)
     ctx.close("log_marginal", lm, _lm_ref(y, mean, v, r).expand(lm.shape), "direct", cls=cls)
+    if case["seed"] % 2 == 0:
+        # targets and latent means sharing a large common offset (un-centred data): the terms depend on y - m only
+        off = 10.0 ** (5 + 2 * float(util.rand(g, 1)))
+        d_off = MVN(mean + off, C)
+        y_off = y + off
+        dlt = y_off - (mean + off)  # (what is representable of y - m after the shift)
+        ctx.close("expected_log_prob", lik.expected_log_prob(y_off, d_off, **kw), _elp_ref(dlt, torch.zeros_like(dlt), v, r).expand(elp.shape), (1e-8, 1e-8), cls=cls + ":large_common_offset")
+        ctx.close("log_marginal", lik.log_marginal(y_off, d_off, **kw), _lm_ref(dlt, torch.zeros_like(dlt), v, r).expand(lm.shape), (1e-8, 1e-8), cls=cls + ":large_common_offset")
+    else:
+        # targets of another dtype than the distribution (integer counts, single precision): promoted, never the mean rounded
+        for ydt in (torch.int64, torch.float32):
+            y_c = torch.round(y * 3).to(ydt) if ydt == torch.int64 else y.to(ydt)
+            try:
+                lm_c = lik.log_marginal(y_c, d, **kw)
+                ctx.close("log_marginal", lm_c, _lm_ref(y_c.double(), mean, v, r).expand(lm_c.shape), (1e-10, 1e-10), cls=cls + ":targets_" + str(ydt)[6:])
+                elp_c = lik.expected_log_prob(y_c, d, **kw)
+                ctx.close("expected_log_prob", elp_c, _elp_ref(y_c.double(), mean, v, r).expand(elp_c.shape), (1e-10, 1e-10), cls=cls + ":targets_" + str(ydt)[6:])
+            except Exception as e:
+                ctx.info[f"targets_dtype_refused:{str(ydt)[6:]}:{type(e).__name__}"] += 1
     f = util.randn(g, 3, *full, n)
     cond = lik.forward(f, **kw)
     ctx.close("forward_scale", cond.scale, r.sqrt().expand(cond.scale.shape), "direct", cls=cls)
